@@ -54,6 +54,11 @@ impl PeriodicPolingConfig {
       let poling_period = match poling_period_um {
         AutoCalcParam::Auto(_) => optimum_poling_period(signal, pump, crystal_setup)?,
         AutoCalcParam::Param(period_um) => {
+          if period_um == 0. || !period_um.is_finite() {
+            return Err(SPDCError(
+              "Poling period must be a finite, non-zero number".into(),
+            ));
+          }
           let sign = PeriodicPoling::compute_sign(signal, pump, crystal_setup);
           sign * period_um.abs() * MICRO * M
         }
